@@ -325,7 +325,8 @@ def decodeOp (j : Json) : M (Op Rat GRat) := do
       let shift := (jFieldOpt kw "shift").isSome
       let ppm ← match jFieldOpt kw "ppm" with | some v => some <$> jRat v | none => pure none
       let tw ← jGList (← jField kw "tw")
-      let twf := fun m => tw.getD m default
+      let twa := tw.toArray                      -- O(1) lookup: the table is read n² times per trace
+      let twf := fun m => twa.getD m default
       if f == "fourier_transform" then pure (.proc (fun d => d.fourierTransform AR dm zff shift ppm twf) obj out)
       else pure (.proc (fun d => d.inverseFourierTransform AR dm zff shift ppm twf) obj out)
     | _ => throw s!"unknown proc {f}"
